@@ -33,7 +33,11 @@ def module_names():
 def task(firsts):
     env = dict(os.environ)
     env["PYTHONWARNINGS"] = "ignore"
-    p = subprocess.run([sys.executable, "-m", "qv.c08_worker", *firsts], capture_output=True, text=True, env=env, timeout=600)
+    extra = []
+    if isinstance(firsts, dict):  # writer / reader modes
+        extra = firsts["opts"]
+        firsts = firsts["firsts"]
+    p = subprocess.run([sys.executable, "-m", "qv.c08_worker", *firsts, *extra], capture_output=True, text=True, env=env, timeout=600)
     line = p.stdout.strip().splitlines()[-1] if p.stdout.strip() else ""
     try:
         out = json.loads(line)
@@ -64,6 +68,26 @@ def run(tier, seed):
         jobs += [[a, b] for a in pk for b in pk if a != b]
     for r in pmap(__name__, "task", jobs):
         acc.add(r)
+    # partial imports: a writer with the whole package imported dumps every serialized object;
+    # readers import one module + the sub-package defining the family, then rebuild by name
+    import tempfile
+
+    fd, path = tempfile.mkstemp(prefix="qv-c08-", suffix=".json")
+    os.close(fd)
+    try:
+        w = task({"firsts": ["quansino.mc"], "opts": ["--write", path]})
+        families = ["operations", "integrators", "moves", "utils", "mc"]
+        tops = ["quansino", "quansino.registry", "quansino.protocols", "quansino.io", "quansino.utils", "quansino.operations", "quansino.integrators", "quansino.moves"]
+        firsts_r = tops if tier == "quick" else mods
+        rjobs = [{"firsts": [m], "opts": ["--read", path, "--family", f]} for f in families for m in firsts_r]
+        racc = Acc()
+        for r in pmap(__name__, "task", rjobs):
+            racc.add(r)
+        acc.violations.extend(racc.violations)
+        acc.counters["partial_import_rebuilds"] = racc.n("roundtrips")
+        acc.counters["partial_import_interpreters"] = racc.n("interpreters")
+    finally:
+        os.unlink(path)
     # collapse: one violation per signature is enough (the same defect shows in every interpreter)
     rep.violations = acc.violations
     rep.coverage = {
@@ -73,6 +97,8 @@ def run(tier, seed):
         "fresh_interpreters": acc.n("interpreters"),
         "first_import_schedules": len(jobs),
         "failed_first_imports": acc.n("failed_first_imports"),
+        "partial_import_rebuilds": acc.n("partial_import_rebuilds"),
+        "partial_import_interpreters": acc.n("partial_import_interpreters"),
         "modules": len(mods),
         "classes_found": sorted(c.split(".")[-1] for c in acc.sets.get("classes", ())),
         "parameters_without_alphabet_entry": sorted(acc.sets.get("uncovered", ())),
